@@ -1,8 +1,9 @@
 ------------------------------ MODULE Paint_MC ------------------------------
 (* (1) Oracle self-check: the fixpoint laws of Region on EVERY border bitmap
        of a W x H grid and every seed (least fixed point: contains the seed iff
-       open, only open cells, closed under open 4-neighbours, contained in
-       every other closed set - the last one on grids of at most 9 cells).
+       open, only open cells, closed under open 4-neighbours; on grids of at most 9 cells also: every
+       cell of the region generates the same region, and the region is contained
+       in every other closed set).
    (2) Case generator: every (bitmap, seed) of the enumeration is printed as
        JSON; the harness draws each on the real screen inside a VIEW of that
        size, PAINTs it and lets Paint_Trace judge the result.
@@ -31,7 +32,8 @@ FixpointLaws ==
     /\ (SeedOf(s) \in R) = Open(g, 1, SeedOf(s))
     /\ R \subseteq OpenCells
     /\ ClosedSet(R)
-    /\ \A p \in R : Region(g, 1, p) = R                         \* every cell of the region generates the same region
+    \* (the two expensive laws on grids of at most 9 cells only)
+    /\ W * H <= 9 => \A p \in R : Region(g, 1, p) = R          \* every cell of the region generates the same region
     /\ W * H <= 9 => \A S \in SUBSET OpenCells : (SeedOf(s) \in S /\ ClosedSet(S)) => R \subseteq S      \* least
 Emit == PrintT(<<"CASE", ToJson([n |-> n, seed |-> SeedOf(s), grid |-> g])>>)
 =============================================================================
